@@ -71,6 +71,8 @@ type stakeSnap struct {
 	esc     map[staking.Address]*escrowSnap
 	general map[staking.Address]*big.Int
 	epoch   beacon.EpochTime
+	// debInterval is the staking debonding interval (epochs).
+	debInterval beacon.EpochTime
 }
 
 func snapStaking(ctx context.Context, tree mkvs.ImmutableKeyValueTree) *stakeSnap {
@@ -121,6 +123,9 @@ func snapStaking(ctx context.Context, tree mkvs.ImmutableKeyValueTree) *stakeSna
 	ep, _, err := beaconState.NewImmutableState(tree).GetEpoch(ctx)
 	if err == nil {
 		sn.epoch = ep
+	}
+	if di, err := st.DebondingInterval(ctx); err == nil {
+		sn.debInterval = di
 	}
 	return sn
 }
@@ -319,6 +324,12 @@ func (o *c15Oracle) AfterBlock(s *Sim, h int64, blk *cmttypes.Block, _ []*BuiltT
 		amount, shares *big.Int
 	}
 	var payouts []payout
+	// started: debonding delegations created by reclaims of this block (owner, escrow, shares).
+	type started struct {
+		owner, escrow staking.Address
+		shares        *big.Int
+	}
+	var starts []started
 	// Running pool balances, advanced event by event, so that the pools a slash acted on are
 	// known (rewards and fees reach the active pool before evidence is handled in the same
 	// BeginBlock; reclaims and completions move stake between and out of the pools).
@@ -357,6 +368,7 @@ func (o *c15Oracle) AfterBlock(s *Sim, h int64, blk *cmttypes.Block, _ []*BuiltT
 					pl := poolsOf(de.Escrow)
 					pl.act.Sub(pl.act, de.Amount.ToBigInt())
 					pl.deb.Add(pl.deb, de.Amount.ToBigInt())
+					starts = append(starts, started{de.Owner, de.Escrow, de.DebondingShares.ToBigInt()})
 				}
 			case (&staking.TakeEscrowEvent{}).EventKind():
 				var te staking.TakeEscrowEvent
@@ -473,6 +485,34 @@ func (o *c15Oracle) AfterBlock(s *Sim, h int64, blk *cmttypes.Block, _ []*BuiltT
 					if !found {
 						return c15Viol("debonding-payout-missing", fmt.Sprintf("height %d: %s debonding shares of %s in %s disappeared without a matching reclaim payout", h, gone, d, e))
 					}
+				}
+			}
+		}
+	}
+	// With a debonding interval of zero epochs a reclaim made in an epoch-transition block ends its
+	// debonding in the epoch it was made in (end = epoch at execution + 0, computed here, not taken
+	// from the recorded end epoch) and is therefore paid out by the same block's end: such a payout
+	// matches a debonding start of this block instead of a delegation of the state before it.
+	if epochChanged && prev.debInterval == 0 {
+		// (Several reclaims of one delegator from one escrow account in that block are merged into
+		// one debonding delegation, hence one payout for the sum of their shares.)
+		type pair struct{ owner, escrow staking.Address }
+		sum := map[pair]*big.Int{}
+		var order []pair
+		for _, stt := range starts {
+			k := pair{stt.owner, stt.escrow}
+			if sum[k] == nil {
+				sum[k] = new(big.Int)
+				order = append(order, k)
+			}
+			sum[k].Add(sum[k], stt.shares)
+		}
+		for _, k := range order {
+			for i, p := range payouts {
+				if p.owner.Equal(k.owner) && p.escrow.Equal(k.escrow) && p.shares.Cmp(sum[k]) == 0 {
+					payouts = append(payouts[:i], payouts[i+1:]...)
+					s.St.Inc("probe.c15.debonding_started_and_completed_in_one_block")
+					break
 				}
 			}
 		}
